@@ -132,8 +132,8 @@ theorem shapedBy_layerOk {le : LayerEnv} {d : Dir} (h : ShapedBy le d) : LayerOk
   · exact Or.inr ⟨_, rfl⟩
 
 theorem emptyEnv_ok : LayerEnv.empty.Ok :=
-  ⟨⟨sorted_nil, by intro e he; cases he⟩, ⟨sorted_nil, by intro e he; cases he⟩, ⟨sorted_nil, by intro e he; cases he⟩,
-    by intro pd hpd; cases hpd, ⟨by simp [LayerEnv.empty], by intro pd hpd; cases hpd⟩⟩
+  ⟨⟨sorted_nil, (by intro e he; cases he)⟩, ⟨sorted_nil, (by intro e he; cases he)⟩, ⟨sorted_nil, (by intro e he; cases he)⟩,
+    (by intro pd hpd; cases hpd), ⟨(by simp [LayerEnv.empty]), (by intro pd hpd; cases hpd)⟩⟩
 
 theorem shapedBy_empty : ShapedBy LayerEnv.empty [] := ⟨rfl, rfl, rfl⟩
 
@@ -186,40 +186,54 @@ theorem progsOf_none_nonempty (ps : List (Bytes × Option Bytes)) (h : progsOf p
   | nil => simp [progsOf] at h
   | cons p t => rfl
 
+/-- `replace_layer_exec_d_programs` on a layer directory without `exec.d` -/
+theorem replaceExecd_absent (l : Layer) (d : Dir) (hd : l.dir = some d) (hg : d.get nExecd = none)
+    (ps : List (Bytes × Option Bytes)) :
+    ∃ d', (∀ k, k ≠ nExecd → d'.get k = d.get k) ∧ ExecdOk d' ∧
+      match progsOf ps with
+      | some progs => replaceExecd l ps = ({ l with dir := some d' }, .ok) ∧ d'.get nExecd = execdNode progs
+      | none => replaceExecd l ps = ({ l with dir := some d' }, .err .missingExecd) := by
+  unfold replaceExecd
+  rw [hd]
+  simp only [hg]
+  cases hp : progsOf ps with
+  | some progs =>
+    by_cases he : ps.isEmpty = true
+    · refine ⟨d, fun _ _ => rfl, Or.inl hg, ?_⟩
+      simp only [he, if_true, true_and]
+      rw [hg]; unfold execdNode; rw [progsOf_isEmpty ps progs hp, he]; rfl
+    · have he' : ps.isEmpty = false := by simpa using he
+      have hpe : progs.isEmpty = false := by rw [progsOf_isEmpty ps progs hp, he']
+      refine ⟨d.set nExecd (.dir (progs.map (fun p => (p.1, Node.file p.2)))),
+        fun k hk => Dir.get_set_ne _ _ _ _ hk, Or.inr ⟨_, Dir.get_set_eq _ _ _⟩, ?_⟩
+      simp only [he', allSome_progs, hp, Option.map_some, Bool.false_eq_true, if_false, true_and]
+      rw [Dir.get_set_eq]; unfold execdNode; simp [hpe]
+  | none =>
+    have he' : ps.isEmpty = false := progsOf_none_nonempty ps hp
+    refine ⟨d.set nExecd (.dir []), fun k hk => Dir.get_set_ne _ _ _ _ hk, Or.inr ⟨_, Dir.get_set_eq _ _ _⟩, ?_⟩
+    simp only [he', allSome_progs, hp, Option.map_none, Bool.false_eq_true, if_false]
+
+/-- an existing `exec.d` directory is removed first -/
+theorem replaceExecd_erase (l : Layer) (d : Dir) (hd : l.dir = some d) (es : Dir) (hg : d.get nExecd = some (.dir es))
+    (ps : List (Bytes × Option Bytes)) :
+    replaceExecd l ps = replaceExecd { l with dir := some (d.erase nExecd) } ps := by
+  unfold replaceExecd
+  rw [hd]
+  simp only [hg, Dir.get_erase_eq]
+
 /-- `replace_layer_exec_d_programs` on an existing layer directory whose `exec.d` is absent or a directory -/
 theorem replaceExecd_spec (l : Layer) (d : Dir) (hd : l.dir = some d) (hx : ExecdOk d) (ps : List (Bytes × Option Bytes)) :
     ∃ d', (∀ k, k ≠ nExecd → d'.get k = d.get k) ∧ ExecdOk d' ∧
       match progsOf ps with
       | some progs => replaceExecd l ps = ({ l with dir := some d' }, .ok) ∧ d'.get nExecd = execdNode progs
       | none => replaceExecd l ps = ({ l with dir := some d' }, .err .missingExecd) := by
-  -- the directory after `if exec_d_dir.is_dir() { remove_dir_all }`
-  have hd1 : ∃ d1 : Dir, (match d.get nExecd with | some (.dir _) => d.erase nExecd | _ => d) = d1 ∧
-      d1.get nExecd = none ∧ ∀ k, k ≠ nExecd → d1.get k = d.get k := by
-    rcases hx with h | ⟨es, h⟩
-    · exact ⟨d, by rw [h], h, fun _ _ => rfl⟩
-    · exact ⟨d.erase nExecd, by rw [h], Dir.get_erase_eq d nExecd, fun k hk => Dir.get_erase_ne d nExecd k hk⟩
-  obtain ⟨d1, hd1, hg1, hf1⟩ := hd1
-  unfold replaceExecd
-  rw [hd]
-  simp only [hd1]
-  cases hp : progsOf ps with
-  | some progs =>
-    by_cases he : ps.isEmpty = true
-    · refine ⟨d1, hf1, Or.inl hg1, ?_⟩
-      simp only [he, if_true, true_and]
-      rw [hg1]; unfold execdNode; rw [progsOf_isEmpty ps progs hp, he]; rfl
-    · have he' : ps.isEmpty = false := by simpa using he
-      have hpe : progs.isEmpty = false := by rw [progsOf_isEmpty ps progs hp, he']
-      refine ⟨d1.set nExecd (.dir (progs.map (fun p => (p.1, Node.file p.2)))),
-        fun k hk => by rw [Dir.get_set_ne _ _ _ _ hk]; exact hf1 k hk,
-        Or.inr ⟨_, Dir.get_set_eq _ _ _⟩, ?_⟩
-      simp only [he', hg1, allSome_progs, hp, Option.map_some, Bool.false_eq_true, if_false, true_and]
-      rw [Dir.get_set_eq]; unfold execdNode; simp [hpe]
-  | none =>
-    have he' : ps.isEmpty = false := progsOf_none_nonempty ps hp
-    refine ⟨d1.set nExecd (.dir []), fun k hk => by rw [Dir.get_set_ne _ _ _ _ hk]; exact hf1 k hk,
-      Or.inr ⟨_, Dir.get_set_eq _ _ _⟩, ?_⟩
-    simp only [he', hg1, allSome_progs, hp, Option.map_none, Bool.false_eq_true, if_false]
+  rcases hx with h | ⟨es, h⟩
+  · exact replaceExecd_absent l d hd h ps
+  · obtain ⟨d', hf, hx', hm⟩ := replaceExecd_absent { l with dir := some (d.erase nExecd) } (d.erase nExecd) rfl
+      (Dir.get_erase_eq d nExecd) ps
+    refine ⟨d', fun k hk => by rw [hf k hk]; exact Dir.get_erase_ne d nExecd k hk, hx', ?_⟩
+    rw [replaceExecd_erase l d hd es h ps]
+    exact hm
 
 /-! ### writing the environment -/
 theorem write_env_spec (le : LayerEnv) (hp : ProcOk le) (d0 : Dir) (hl : LayerOk d0) :
@@ -326,19 +340,16 @@ theorem envDirNode_eq (d : Delta) : envDirNode d = deltaNode d := by
 
 theorem launchDirNode_same (le : LayerEnv) :
     sameOpt (launchNode (procDirs le.process ++ le.launch.map Entry.fileOf)) (launchDirNode le) = true := by
-  have hfun : (fun pd : Bytes × Delta => (pd.1, Node.dir (pd.2.map envFile))) =
-      fun pd => (pd.1, Node.dir (pd.2.map Entry.fileOf)) := by
-    funext pd; rw [envFile_map]
   have : launchDirNode le =
       launchNode ((le.process.filter (fun pd => !pd.2.isEmpty)).map (fun pd => (pd.1, Node.dir (pd.2.map Entry.fileOf))) ++
         le.launch.map Entry.fileOf) := by
-    unfold launchDirNode launchNode; simp only [envFile_map, hfun]
+    unfold launchDirNode launchNode; simp only [envFile_map]
   rw [this]
   apply sameOpt_launchNode
   intro x
   simp [procDirs]
 
-theorem persistDirOk_of (base d4 : Dir) (r : LResult) (progs : List (Bytes × Bytes)) (hfiles : FilesOk r.files)
+theorem persistDirOk_of (base d4 : Dir) (r : LResult) (progs : List (Bytes × Bytes))
     (hs : ShapedBy (r.env.getD {}) d4) (hx : d4.get nExecd = execdNode progs)
     (hf : ∀ k, k ≠ nEnv → k ≠ nEnvBuild → k ≠ nEnvLaunch → k ≠ nExecd → d4.get k = (applyFiles base r.files).get k) :
     persistDirOk base d4 r progs = true := by
